@@ -234,14 +234,14 @@ def scope(ctx):
     f = ctx.f
     ma = r.main_async()
     def is_clean(d):
-        return d[0] == "call" and d[1].endswith("ArgMatches::is_present") and len(d[2]) > 1 and any(a[0] == "static" and a[1].endswith("CLEAN") for a in d[2][1])
+        return d[0] == "call" and d[1].endswith("ArgMatches::is_present") and len(d[2]) > 1 and any(a[0] in ("static", "constdef") and a[1].endswith("CLEAN") for a in d[2][1])
     # the flag may be tested inside the async block or bound to a local before it (captured)
     Gc = guard_region(ma, is_clean, True)
     if not Gc:
         m = r.main_body()
         clean_locals = set()
         for bb, t in m.calls():
-            if t["callee"]["base"].endswith("ArgMatches::is_present") and len(t["args"]) > 1 and any(a[0] == "static" and a[1].endswith("CLEAN") for a in m.prov.operand_atoms(t["args"][1])):
+            if t["callee"]["base"].endswith("ArgMatches::is_present") and len(t["args"]) > 1 and any(a[0] in ("static", "constdef") and a[1].endswith("CLEAN") for a in m.prov.operand_atoms(t["args"][1])):
                 for l in m.prov.flows_forward(t["dest"]["local"]):
                     nm = m.locals[l].get("name")
                     if nm:
@@ -265,7 +265,7 @@ def scope(ctx):
             l = operand_local(o)
             ty = mraw.locals[l]["ty"] if l is not None else ""
             at = mraw.prov.operand_atoms(o)
-            from_targets_arg = any(c.endswith("ArgMatches::values_of_lossy") or c.endswith("ArgMatches::values_of") for c in atom_callres(at)) and any(a[0] == "static" and a[1].endswith("TARGETS") for a in at)
+            from_targets_arg = any(c.endswith("ArgMatches::values_of_lossy") or c.endswith("ArgMatches::values_of") for c in atom_callres(at)) and any(a[0] in ("static", "constdef") and a[1].endswith("TARGETS") for a in at)
             if re.search(r"Option<", ty) and from_targets_arg:
                 req_names.add(nm)
             if ty.replace("&", "").replace("mut ", "").strip() == "bool" and from_targets_arg and l is not None:
@@ -294,7 +294,7 @@ def scope(ctx):
             if how == "block_on" and inb == m.name and n_ != ma.name:
                 siblings.append((r.V(f.bodies[n_]), sbb))
     def is_targets_opt(atoms):
-        return any(c.endswith("ArgMatches::values_of_lossy") or c.endswith("ArgMatches::values_of") for c in atom_callres(atoms)) and any(a[0] == "static" and a[1].endswith("TARGETS") for a in atoms)
+        return any(c.endswith("ArgMatches::values_of_lossy") or c.endswith("ArgMatches::values_of") for c in atom_callres(atoms)) and any(a[0] in ("static", "constdef") and a[1].endswith("TARGETS") for a in atoms)
     def m_req(which):
         return lambda d: d[0] == "call" and d[1].endswith("::" + which) and d[2] and is_targets_opt(d[2][0])
     Mc = guard_region(m, is_clean, True)
@@ -344,7 +344,7 @@ def scope(ctx):
         l_ = e.label
         if l_ and l_[0] == "variant" and l_[2] == (which,) and \
                 origin_matches(edge_origin(mraw, e), lambda o: o[0] == "call" and re.search(r"ArgMatches::values_of(_lossy)?$", o[1]) is not None and
-                               any(a[0] == "static" and a[1].endswith("TARGETS") for x in o[3]["args"] for a in mraw.prov.operand_atoms(x))):
+                               any(a[0] in ("static", "constdef") and a[1].endswith("TARGETS") for x in o[3]["args"] for a in mraw.prov.operand_atoms(x))):
             return True
         # `if requested_targets.is_some() { .. }`
         if l_ and l_[0] == "bool" and l_[2] is not None:
@@ -1066,7 +1066,16 @@ def notify_unconditional(ctx):
                 for (k, v, o, e) in path_facts(cb, p):
                     if k == "bool":
                         descs = bool_atom_desc(cb, e.label[2])
-                        if conditions_within([(e, descs, v)], [(lambda d: d[0] == "call" and d[1].endswith("::is_empty"), False)]):
+                        # 'some path was kept': emptiness of the collection of kept *paths* itself - not of something derived from it that can lose entries
+                        # (`join(kept.iter().flat_map(|p| p.to_str()))` is empty for a kept path whose name is not UTF-8)
+                        def kept_is_empty(d):
+                            if not (d[0] == "call" and d[1].endswith("::is_empty")):
+                                return False
+                            decl = callee_decl(cb.term(d[3])) if isinstance(d[3], int) else ""
+                            lossy = [c for c in atom_callres(d[4][0] if len(d) > 4 and d[4] else ()) if
+                                     re.search(r"::(take|skip|step_by|take_while|skip_while|nth|last|find|find_map|position|first|get|flat_map|filter_map|map_while|join|to_str|into_string)(::<.*>)?$", c)]
+                            return "Path" in decl and not lossy
+                        if conditions_within([(e, descs, v)], [(kept_is_empty, False)]):
                             extra[(e.src, e.dst)] = fmt_conds([(e, descs, v)])
                     else:
                         on_param = origin_matches(o, lambda x: x[0] == "param") and not origin_matches(o, lambda x: x[0] == "field" and any(n not in ("0", "Ok", "Err") for n in x[1]), through_fields=False)
